@@ -77,13 +77,16 @@ def handleTaintOp (j : Json) : OpOut :=
     let oJ : Journal := getD obs "j" []
     let o : Oracle := fun k _ => resps.toArray.getD k .fail
     let dPanic := match obs.getObjVal? "panic" with | .ok _ => ["panic"] | .error _ => []
+    let m15 := (Spec.C15.bad nowSec effect none (oJ.zip resps)).map (fun n => "C15:imprecise:" ++ n)
     if kind == "add" then
       let r := addTaint o 0 nowSec effect node
       { diffs := (if r.j == oJ then [] else ["journal"]) ++ (if r.val == getD obs "ok" false then [] else ["ok"]) ++ dPanic,
+        mon := m15,
         tag := "taintop:add", model := Json.mkObj [("j", toJson r.j), ("ok", toJson r.val)] }
     else if kind == "delete" then
       let r := deleteTaint o 0 node
       { diffs := (if r.j == oJ then [] else ["journal"]) ++ (if r.val == getD obs "ok" false then [] else ["ok"]) ++ dPanic,
+        mon := m15,
         tag := "taintop:delete", model := Json.mkObj [("j", toJson r.j), ("ok", toJson r.val)] }
     else
       let oT : String := getD obs "time" "?"
@@ -139,7 +142,9 @@ def handleResources (j : Json) : OpOut :=
     { diffs := cmp "podTotal" pu.total ++ cmp "lpMem" pu.largestPendingMem ++ cmp "lpCPU" pu.largestPendingCPU ++
                cmp "capTotal" nc.total ++ cmp "laMem" nc.largestAvailMem ++ cmp "laCPU" nc.largestAvailCPU ++
                (if rem == oRem then [] else ["remaining"]) ++
+               (if getD obs "permEqual" true then [] else ["perm-invariance"]) ++
                (match obs.getObjVal? "panic" with | .ok _ => ["panic"] | .error _ => []),
+      mon := if getD obs "permEqual" true then [] else ["C13:order-dependent"],
       tag := "resources:" ++ toString pods.length ++ ":" ++ toString nodes.length,
       model := Json.mkObj [("podTotal", toJson pu.total), ("capTotal", toJson nc.total), ("pu", toJson pu), ("nc", toJson nc)] }
   | _, _ => { diffs := ["bad-case"] }
